@@ -318,7 +318,7 @@ func (g *WireGen) val(dst string) string {
 		return []string{"a", "b", "c", "d", "zz"}[g.pick(5)] // "zz" is nowhere
 	case "match", "pattern":
 		// ("[!k]*": to SQLite's GLOB - and so to every documented call - a class holding "!" and "k")
-		return []string{"*", "k*", "a*", "?", "[ab]", "f[12]", "[!k]*", "[[!]*", "[!a-c]*", "k[!1]"}[g.pick(10)]
+		return []string{"*", "k*", "a*", "?", "[ab]", "f[12]", "[!k]*", "[[!]*", "[!a-c]*", "k[!1]", ""}[g.pick(11)]
 	}
 	return wireVals[g.pick(len(wireVals))]
 }
@@ -383,7 +383,7 @@ func (g *WireGen) genComb(c *Comb, malformed float64, nkeys *int) []string {
 			return []string{[]string{"0", "1", "2", "5"}[g.pick(4)]}
 		}
 		if !bad && g.CursorZero && d == "count" {
-			return []string{[]string{"100", "0", "1000", "50"}[g.pick(4)]}
+			return []string{[]string{"100", "0", "1000", "50", "-1"}[g.pick(5)]}
 		}
 		if !bad && smallIntDst(d) && g.intPos < len(g.IntSeq) {
 			g.intPos++
